@@ -35,6 +35,8 @@ TDone ==
           ELSE IF exit = "exc" THEN (IF e.code = "exc:ValueError" THEN phase' = "checked" /\ l' = l + 1 /\ UNCHANGED <<tid, verdict, cfg, k, completed, evals, delivered, exit>>
                                      ELSE Stop("evaluator_exception_swallowed_or_replaced"))
           ELSE IF e.code # exit THEN Stop("exit_code_expected_" \o exit \o "_got_" \o e.code)
+          \* (the optimization engine driven directly, without plan and step, ends the same way)
+          ELSE IF e.direct # "" /\ e.direct # exit THEN Stop("engine_used_directly_expected_" \o exit \o "_got_" \o e.direct)
           ELSE IF cfg.kind = "opt" /\ cfg.maxfun > 0 /\ e.nfun > cfg.maxfun + 1 THEN Stop("budget_exceeded")
           ELSE phase' = "checked" /\ l' = l + 1 /\ UNCHANGED <<tid, verdict, cfg, k, completed, evals, delivered, exit>>
 TNext == Silent \/ TEvaluate \/ TDone
